@@ -180,7 +180,12 @@ func (g *Gen) instr(in ssa.Instruction, h *Heap, guard string) *Heap {
 	case *ssa.Select:
 		return g.selectStmt(x, h, guard)
 	case *ssa.Send:
-		return g.interference(h, guard, "channel send")
+		h = g.interference(h, guard, "channel send")
+		if _, ok := g.specs.Ghosts["sends"]; ok {
+			cur := h.Get("G.sends", SInt)
+			h = h.Set("G.sends", SInt, App("+", cur, "1"))
+		}
+		return h
 	}
 	g.errorf("unsupported instruction %T in %s", in, funcKey(g.fn))
 	if v, ok := in.(ssa.Value); ok {
